@@ -101,7 +101,10 @@ fn gen_dev8(rng: &mut Rng, i: usize, big: bool) -> GenDev {
     let kind = rng.below(5); // 0 coupler, 1-2 eeprom io, 3-4 coe
     if kind == 0 { return GenDev { desc: DeviceDesc::coupler(&format!("CPL{:02}", i)), over: vec![] }; }
     let coe = kind >= 3;
-    let mut d = if coe { let mut d = DeviceDesc::coe_io(&format!("COE{:02}", i), 64 + 16 * rng.below(3) as u16, 0, 0); d.sync_managers.truncate(2); d.fmmu_usage.clear(); d } else { DeviceDesc { name: format!("IO{:02}x", i), ..Default::default() } };
+    let mut d = if coe { let mut d = DeviceDesc::coe_io(&format!("COE{:02}", i), 64 + 16 * rng.below(3) as u16, 0, 0); d.sync_managers.truncate(2); d.fmmu_usage.clear();
+        // mostly CoE, sometimes a mailbox device without CoE (then its PDOs come from the EEPROM) or with more protocols
+        if let Some(m) = d.mailbox.as_mut() { match rng.below(8) { 0 => m.protocols = MBX_FOE, 1 => m.protocols = MBX_COE | MBX_EOE | MBX_FOE, _ => {} } }
+        d } else { DeviceDesc { name: format!("IO{:02}x", i), ..Default::default() } };
     // process data sync managers: up to 3 per direction, order random
     let n_out = *rng.pick(&[0usize, 1, 1, 1, 2, 3]);
     let n_in = *rng.pick(&[0usize, 1, 1, 1, 2, 3]);
@@ -281,8 +284,9 @@ fn c08_case(rng: &mut Rng, release: bool) -> String {
         let pd = |l: &Vec<vharness::sim::eeprom::PdoDesc>| l.iter().map(|p| format!("[{},{},[{}]]", p.index, p.sm, p.entries.iter().map(|e| e.bit_len.to_string()).collect::<Vec<_>>().join(","))).collect::<Vec<_>>().join(",");
         let smr: Vec<String> = (0..d.sync_managers.len()).map(|k| { let r = sim.sm(k); format!("[{},{},{},{}]", r.start, r.len, r.control, r.activate & 1) }).collect();
         let fm: Vec<String> = (0..16).map(|k| { let f = sim.fmmu(k); format!("[{},{},{},{},{},{},{},{},{}]", f.logical_start, f.len, f.start_bit, f.end_bit, f.phys_start, f.phys_bit, f.read as u8, f.write as u8, f.enabled as u8) }).collect();
-        format!("{{\"coe\":{},\"sms\":[{}],\"fmmu_usage\":{:?},\"fmmu_ex\":{},\"rx\":[{}],\"tx\":[{}],\"over\":[{}],\"want\":[{}],\"sm_regs\":[{}],\"fmmu_regs\":[{}],\"al\":{},\"strict\":{}}}",
-            d.has_coe(), sms.join(","), d.fmmu_usage, d.fmmu_ex.is_some(), pd(&d.rx_pdos), pd(&d.tx_pdos), g.over.iter().map(|(a, b)| format!("[{},{}]", a, b)).collect::<Vec<_>>().join(","),
+        let mbx = match d.mailbox.as_ref() { Some(m) => format!("[{},{},{},{},{}]", m.rx_offset, m.rx_size, m.tx_offset, m.tx_size, m.protocols), None => "null".to_string() };
+        format!("{{\"coe\":{},\"mbx\":{},\"sms\":[{}],\"fmmu_usage\":{:?},\"fmmu_ex\":{},\"rx\":[{}],\"tx\":[{}],\"over\":[{}],\"want\":[{}],\"sm_regs\":[{}],\"fmmu_regs\":[{}],\"al\":{},\"strict\":{}}}",
+            d.has_coe(), mbx, sms.join(","), d.fmmu_usage, d.fmmu_ex.is_some(), pd(&d.rx_pdos), pd(&d.tx_pdos), g.over.iter().map(|(a, b)| format!("[{},{}]", a, b)).collect::<Vec<_>>().join(","),
             want[p].iter().map(|(k, u, s, l)| format!("[{},{},{},{}]", k, u, s, l)).collect::<Vec<_>>().join(","), smr.join(","), fm.join(","), sim.al_state(), sim.al.strict) }).collect();
     let body = match r {
         Err(_) => "\"res\":\"PANIC\"".to_string(),
